@@ -1,6 +1,7 @@
 import OVM.Kernel.Step
 import OVM.Base.ListLemmas
 import OVM.Base.Bits
+import OVM.Refine.CacheSwapSpec
 /-
   C17 — index swaps are pure relabelings.
   Proved here, for every mesh state (no bound, any contents, including deleted handles):
@@ -142,5 +143,89 @@ example :
     (k.swapVertex 0 2).edges = [(2, 1), (1, 0)] ∧ (k.swapVertex 0 2).vDel = [false, false, true] ∧
     (k.swapVertex 0 2).props.v = [{ key := "t", dflt := 0, vals := [9, 8, 7] }] ∧
     (k.swapVertex 0 2).swapVertex 0 2 = k := by decide
+
+/-! ### ---- begin: swaps and the bottom-up caches (OVM/Refine/CacheSwap*.lean) ----
+  `WF k` = array lengths ∧ every stored handle in range ∧ `CacheInv k` (each enabled bottom-up cache
+  equals, slot by slot, the brute-force scan over the live definitions).  For in-range handles (the
+  `assert`s at the head of each `swap_*_indices`) every swap keeps `WF`, in every bottom-up
+  configuration — the cache-guided variants with their processed-sets and the linear-scan variants.
+  `oneCell` (no halfface in two live cells, C01's stated precondition) is needed exactly where
+  `incident_cell_per_hf_` — one cell per halfface — guides or is rewritten.
+  The relabeling specifications `relabel{Vertex,Edge,Face,Cell}Spec` ("exchange the two names
+  everywhere") are in OVM/Refine/CacheSwapSpec.lean. -/
+
+theorem swap_vertex_keeps_cache_invariant (k : Kernel) (a b : Nat) (ha : a < k.nV) (hb : b < k.nV) (hw : WF k) :
+    WF (k.swapVertex a b) := wf_swapVertex ha hb hw
+
+theorem swap_edge_keeps_cache_invariant (k : Kernel) (a b : Nat) (ha : a < k.nE) (hb : b < k.nE) (hw : WF k) :
+    WF (k.swapEdge a b) := wf_swapEdge ha hb hw
+
+theorem swap_face_keeps_cache_invariant (k : Kernel) (a b : Nat) (ha : a < k.nF) (hb : b < k.nF) (hw : WF k)
+    (h1 : k.fBU = true → k.oneCell = true) : WF (k.swapFace a b) := wf_swapFace' ha hb hw h1
+
+theorem swap_cell_keeps_cache_invariant (k : Kernel) (a b : Nat) (ha : a < k.nC) (hb : b < k.nC) (hw : WF k)
+    (h1 : k.oneCell = true) : WF (k.swapCell a b) := wf_swapCell ha hb hw h1
+
+/-- C01's precondition is itself kept by all four swaps -/
+theorem swaps_keep_oneCell (k : Kernel) (a b : Nat) (hw : WF k) (h1 : k.oneCell = true) :
+    (k.swapVertex a b).oneCell = true ∧ (k.swapEdge a b).oneCell = true ∧
+    (a < k.nF → b < k.nF → (k.swapFace a b).oneCell = true) ∧
+    (a < k.nC → b < k.nC → (k.swapCell a b).oneCell = true) :=
+  ⟨oneCell_swapVertex a b h1, oneCell_swapEdge a b h1, fun ha hb => oneCell_swapFace ha hb hw.cache.f h1,
+   fun ha hb => oneCell_swapCell ha hb hw.len.cDel h1⟩
+
+/-- C17's gap, closed: under `WF` the cache-guided variants produce exactly the state of the
+    relabeling specification (record equality: definitions, caches including order, flags, property
+    columns), provided no entity one level up carries a deletion flag — a flagged face / cell / edge
+    is not listed in the caches, so the cache-guided variant cannot find it. -/
+theorem swap_cache_guided_eq_relabeling (k : Kernel) (a b : Nat) (hab : a ≠ b) (hw : WF k) :
+    (a < k.nV → b < k.nV → (k.vBU = true → NoFlag k.eDel) → k.swapVertex a b = relabelVertexSpec k a b) ∧
+    (a < k.nE → b < k.nE → (k.eBU = true → NoFlag k.fDel) → k.swapEdge a b = relabelEdgeSpec k a b) ∧
+    (a < k.nF → b < k.nF → (k.fBU = true → k.oneCell = true) → (k.fBU = true → NoFlag k.cDel) →
+      k.swapFace a b = relabelFaceSpec k a b) ∧
+    (k.swapCell a b = relabelCellSpec k a b) :=
+  ⟨fun ha hb hl => swapVertex_eq_spec ha hb hab hw hl, fun ha hb hl => swapEdge_eq_spec ha hb hab hw hl,
+   fun ha hb h1 hl => swapFace_eq_spec ha hb hab hw h1 hl, swapCell_eq_spec hab hw⟩
+
+/-- … and for every mesh state, flagged entities included: every field except the definition array one
+    level up is the specification's, and that array agrees with it at every live index (a flagged
+    entity's definition may keep the old name; it stays in range by `swap_*_keeps_cache_invariant`). -/
+theorem swap_edge_cache_guided_eq_relabeling_live (k : Kernel) (a b : Nat) (ha : a < k.nE) (hb : b < k.nE)
+    (hab : a ≠ b) (hw : WF k) :
+    k.swapEdge a b = { relabelEdgeSpec k a b with faces := (k.swapEdge a b).faces } ∧
+    (k.swapEdge a b).faces.length = k.faces.length ∧
+    ∀ f, (k.eBU = true → k.liveF f = true) → (k.swapEdge a b).faceAt f = (relabelEdgeSpec k a b).faceAt f :=
+  swapEdge_eq_spec_live ha hb hab hw
+
+theorem swap_face_cache_guided_eq_relabeling_live (k : Kernel) (a b : Nat) (ha : a < k.nF) (hb : b < k.nF)
+    (hab : a ≠ b) (hw : WF k) (h1 : k.fBU = true → k.oneCell = true) :
+    k.swapFace a b = { relabelFaceSpec k a b with cells := (k.swapFace a b).cells } ∧
+    (k.swapFace a b).cells.length = k.cells.length ∧
+    ∀ c, (k.fBU = true → k.liveC c = true) → (k.swapFace a b).cellAt c = (relabelFaceSpec k a b).cellAt c :=
+  swapFace_eq_spec_live ha hb hab hw h1
+
+theorem swap_vertex_cache_guided_eq_relabeling_live (k : Kernel) (a b : Nat) (ha : a < k.nV) (hb : b < k.nV)
+    (hab : a ≠ b) (hw : WF k) :
+    k.swapVertex a b = { relabelVertexSpec k a b with edges := (k.swapVertex a b).edges } ∧
+    (k.swapVertex a b).edges.length = k.edges.length ∧
+    ∀ e, e < k.nE → (k.vBU = true → k.liveE e = true) →
+      (k.swapVertex a b).edgeAt e = (relabelVertexSpec k a b).edgeAt e :=
+  swapVertex_eq_spec_live ha hb hab hw
+
+/-- non-vacuity: the tetrahedron with all incidences on (`tetK`, `WF` by `wf_tetK`): the swaps keep
+    `WF`, equal their specifications, and the specifications really rename -/
+example : WF (tetK.swapEdge 0 5) ∧ WF (tetK.swapFace 0 3) ∧ WF (tetK.swapVertex 1 2) :=
+  ⟨swap_edge_keeps_cache_invariant tetK 0 5 (by decide) (by decide) wf_tetK,
+   swap_face_keeps_cache_invariant tetK 0 3 (by decide) (by decide) wf_tetK (fun _ => by decide),
+   swap_vertex_keeps_cache_invariant tetK 1 2 (by decide) (by decide) wf_tetK⟩
+example : tetK.swapEdge 0 5 = relabelEdgeSpec tetK 0 5 ∧
+    (relabelEdgeSpec tetK 0 5).faces = [[10, 2, 4], [6, 8, 11], [9, 0, 3], [5, 1, 7]] ∧
+    (relabelEdgeSpec tetK 0 5).outHes = [[10, 5, 6], [11, 2, 9], [3, 4, 1], [7, 8, 0]] :=
+  ⟨((swap_cache_guided_eq_relabeling tetK 0 5 (by decide) wf_tetK).2.1) (by decide) (by decide)
+      (fun _ => by unfold NoFlag; decide), by decide, by decide⟩
+example : tetK.swapFace 0 3 = relabelFaceSpec tetK 0 3 ∧ (relabelFaceSpec tetK 0 3).cells = [[7, 3, 5, 1]] :=
+  ⟨((swap_cache_guided_eq_relabeling tetK 0 3 (by decide) wf_tetK).2.2.1) (by decide) (by decide)
+      (fun _ => by decide) (fun _ => by unfold NoFlag; decide), by decide⟩
+/-! ### ---- end: swaps and the bottom-up caches ---- -/
 
 end OVM.Props.C17
